@@ -1,11 +1,22 @@
 (* C16: model of the signal-definition normalisation at the top of /repo/src/core.c:
      jls_core_signal_def_validate, signal_def_defaults, round_up_to_multiple,
      jls_core_signal_def_align.
-   Definitions only (proofs: SigDefProofs.v).  All numbers are N; every C uint32_t
-   operation that can wrap is written with an explicit [u32]; a C division by zero is
-   the explicit result [SdFault SdDivZero] (the C process receives SIGFPE).
-   Constants (per-width default tables, minimums, SAMPLE_SIZE_BYTES_MAX, the JLS_DATATYPE words)
-   come from Generated.v, regenerated from the C on every run. *)
+   Definitions only (proofs: SigDefProofs.v).  All numbers are N.
+
+   The main definitions (sd_defaults, sd_round_up, sd_align ...) model the CURRENT code
+   (after the fixes 591c3d3, e7caa59 and 9149f75 of /repo): round_up_to_multiple computes in
+   uint64_t and reports JLS_ERROR_PARAMETER_INVALID when the result does not fit uint32_t,
+   24-bit types take the 32-bit defaults and round sample_decimate_factor to a multiple
+   of 32, definitions whose block / summary buffer byte sizes exceed UINT32_MAX / 2
+   are rejected, and annotation / sd_utc decimate factors are raised to the minimum of 10.  A division by zero (only possible for width 0, which validation
+   rejects) is the explicit result [SdFault SdDivZero].
+
+   The definitions named *_old model the code BEFORE those fixes (uint32 wrap-around,
+   no defaults for 24-bit); they are kept only so that the five defect classes that
+   were found stay documented by machine-checked witnesses (SigDefProofs.v, the old_ lemmas).
+
+   Constants (per-width default tables, minimums, SAMPLE_SIZE_BYTES_MAX, the JLS_DATATYPE
+   words, JLS_SUMMARY_FSR_COUNT) come from Generated.v, regenerated from the C on every run. *)
 From Coq Require Import NArith List Bool.
 From JLS Require Import Generated.
 Import ListNotations.
@@ -15,28 +26,30 @@ Definition U32 : N := 4294967296.                 (* 2^32 *)
 Definition u32 (x : N) : N := x mod U32.
 
 Inductive sd_fault := SdDivZero | SdNonterm.
-Inductive sd_result (A : Type) := SdOk (a : A) | SdFault (f : sd_fault).
+(* SdErr rc: the function returns the error code rc (definition rejected) *)
+Inductive sd_result (A : Type) := SdOk (a : A) | SdErr (rc : N) | SdFault (f : sd_fault).
 Arguments SdOk {A} a.
+Arguments SdErr {A} rc.
 Arguments SdFault {A} f.
 Definition sd_bind {A B} (r : sd_result A) (k : A -> sd_result B) : sd_result B :=
-  match r with SdOk a => k a | SdFault f => SdFault f end.
+  match r with SdOk a => k a | SdErr rc => SdErr rc | SdFault f => SdFault f end.
 
 (* the six storage parameters of struct jls_signal_def_s, in declaration order *)
-Record sigdef := mkSigDef {
+Record sd_sigdef := mkSigDef {
   spd : N;      (* samples_per_data *)
   sdf : N;      (* sample_decimate_factor *)
   eps : N;      (* entries_per_summary *)
   sumdf : N;    (* summary_decimate_factor *)
-  anno : N;     (* annotation_decimate_factor *)
-  utc : N       (* utc_decimate_factor *)
+  sd_anno : N;     (* annotation_decimate_factor *)
+  sd_utc : N       (* utc_decimate_factor *)
 }.
 
-Definition in_range (d : sigdef) : Prop :=
-  spd d < U32 /\ sdf d < U32 /\ eps d < U32 /\ sumdf d < U32 /\ anno d < U32 /\ utc d < U32.
+Definition in_range (d : sd_sigdef) : Prop :=
+  spd d < U32 /\ sdf d < U32 /\ eps d < U32 /\ sumdf d < U32 /\ sd_anno d < U32 /\ sd_utc d < U32.
 
 (* ---- data type words (format.h) ---- *)
 Definition sample_size (dt : N) : N := N.land (N.shiftr dt 8) 255.   (* jls_datatype_parse_size *)
-Definition dt_q (dt : N) : N := N.land (N.shiftr dt 16) 255.          (* jls_datatype_parse_q *)
+Definition sd_dt_q (dt : N) : N := N.land (N.shiftr dt 16) 255.          (* jls_datatype_parse_q *)
 Definition dt_basetype (dt : N) : N := N.land dt 15.                  (* jls_datatype_parse_basetype *)
 Definition BASETYPE_INT : N := dt_basetype JLS_DATATYPE_I32.
 Definition BASETYPE_UINT : N := dt_basetype JLS_DATATYPE_U32.
@@ -59,16 +72,16 @@ Definition sd_validate (signal_id source_id signal_type data_type : N) : N :=
   else if negb (signal_type =? JLS_SIGNAL_TYPE_FSR) && negb (signal_type =? JLS_SIGNAL_TYPE_VSR)
     then JLS_ERROR_PARAMETER_INVALID
   else if negb (existsb (N.eqb (N.land data_type 65535)) sd_datatypes) then JLS_ERROR_PARAMETER_INVALID
-  else if negb (dt_q data_type =? 0) then
+  else if negb (sd_dt_q data_type =? 0) then
     if (dt_basetype data_type =? BASETYPE_INT) || (dt_basetype data_type =? BASETYPE_UINT) then 0
     else JLS_ERROR_PARAMETER_INVALID
   else 0.
 
 (* ---- signal_def_defaults ---- *)
-(* the per-width table; annotation/utc come from SIGNAL_32_DEFAULTS for every width
-   ("common parameters").  Widths outside the table - in particular 24 - hit
-   `default: return;` and get nothing at all. *)
-Definition sd_table (w : N) : option sigdef :=
+(* the per-width table; annotation/sd_utc come from SIGNAL_32_DEFAULTS for every width
+   ("common parameters").  24-bit types use the 32-bit table.  Widths outside the table hit
+   `default: return;` and get nothing (validation never lets them through). *)
+Definition sd_table_old (w : N) : option sd_sigdef :=
   let a := DEF32_annotation_decimate_factor in
   let u := DEF32_utc_decimate_factor in
   if w =? 1 then Some (mkSigDef DEF1_samples_per_data DEF1_sample_decimate_factor DEF1_entries_per_summary DEF1_summary_decimate_factor a u)
@@ -79,18 +92,41 @@ Definition sd_table (w : N) : option sigdef :=
   else if w =? 64 then Some (mkSigDef DEF64_samples_per_data DEF64_sample_decimate_factor DEF64_entries_per_summary DEF64_summary_decimate_factor a u)
   else None.
 
+Definition sd_table (w : N) : option sd_sigdef :=
+  if w =? 24 then sd_table_old 32 else sd_table_old w.       (* case 24: d = &SIGNAL_32_DEFAULTS *)
+
 Definition sd_take (x dflt : N) : N := if x =? 0 then dflt else x.     (* SIGNAL_DEF_DEFAULT *)
 
-Definition sd_defaults (w : N) (d : sigdef) : sigdef :=
-  match sd_table w with
+Definition sd_defaults_with (tbl : option sd_sigdef) (d : sd_sigdef) : sd_sigdef :=
+  match tbl with
   | None => d
   | Some t => mkSigDef (sd_take (spd d) (spd t)) (sd_take (sdf d) (sdf t)) (sd_take (eps d) (eps t))
-                       (sd_take (sumdf d) (sumdf t)) (sd_take (anno d) (anno t)) (sd_take (utc d) (utc t))
+                       (sd_take (sumdf d) (sumdf t)) (sd_take (sd_anno d) (sd_anno t)) (sd_take (sd_utc d) (sd_utc t))
   end.
+(* current code (9149f75): after the zero -> default substitution the annotation / sd_utc decimate
+   factors are raised to SUMMARY_DECIMATE_FACTOR_MIN (not for widths outside the table: early return) *)
+Definition sd_defaults (w : N) (d : sd_sigdef) : sd_sigdef :=
+  match sd_table w with
+  | None => d
+  | Some t =>
+    let d1 := sd_defaults_with (Some t) d in
+    mkSigDef (spd d1) (sdf d1) (eps d1) (sumdf d1)
+             (N.max (sd_anno d1) SUMMARY_DECIMATE_FACTOR_MIN) (N.max (sd_utc d1) SUMMARY_DECIMATE_FACTOR_MIN)
+  end.
+Definition sd_defaults_old (w : N) (d : sd_sigdef) : sd_sigdef := sd_defaults_with (sd_table_old w) d.
 
-(* ---- round_up_to_multiple: ((x + m - 1) / m) * m in uint32_t ----
-   x + m - 1 is computed mod 2^32 (adding 2^32-1 is subtracting 1 mod 2^32). *)
+(* ---- round_up_to_multiple ----
+   current: uint64_t r = (((uint64_t) x + m - 1) / m) * m; error if r > UINT32_MAX.
+   x, m < 2^32 so nothing wraps in 64 bits; m <> 0 makes x + m - 1 exact in N. *)
+Definition U32MAX : N := U32 - 1.
 Definition sd_round_up (x m : N) : sd_result N :=
+  if m =? 0 then SdFault SdDivZero
+  else let r := (x + m - 1) / m * m in
+       if U32MAX <? r then SdErr JLS_ERROR_PARAMETER_INVALID else SdOk r.
+
+(* before the fix: ((x + m - 1) / m) * m in uint32_t; x + m - 1 is computed mod 2^32
+   (adding 2^32-1 is subtracting 1 mod 2^32). *)
+Definition sd_round_up_old (x m : N) : sd_result N :=
   if m =? 0 then SdFault SdDivZero
   else SdOk (u32 (u32 (x + m + (U32 - 1)) / m * m)).
 
@@ -109,9 +145,15 @@ Fixpoint sd_fit_loop (fuel : nat) (e epd : N) : sd_result N :=
        end.
 
 (* ---- jls_core_signal_def_align; w = jls_datatype_parse_size(data_type) ---- *)
-Definition sd_multiple (w : N) : N := (SAMPLE_SIZE_BYTES_MAX * 8) / w.
+Definition sd_multiple_old (w : N) : N := (SAMPLE_SIZE_BYTES_MAX * 8) / w.
+Definition sd_multiple (w : N) : N := if w =? 24 then 32 else (SAMPLE_SIZE_BYTES_MAX * 8) / w.
+Definition SD_SIZEOF_DOUBLE : N := 8.       (* sizeof(double); not among the generated constants *)
 
-Definition sd_align (w : N) (d : sigdef) : sd_result sigdef :=
+(* the two buffer-size checks added after the loop (uint64_t arithmetic, no wrap) *)
+Definition sd_block_too_big (w spd2 : N) : bool := U32MAX / 2 <? spd2 * w / 8.
+Definition sd_summary_too_big (eps1 : N) : bool := U32MAX / 2 <? eps1 * JLS_SUMMARY_FSR_COUNT * SD_SIZEOF_DOUBLE.
+
+Definition sd_align (w : N) (d : sd_sigdef) : sd_result sd_sigdef :=
   let d1 := sd_defaults w d in
   if w =? 0 then SdFault SdDivZero else
   let m := sd_multiple w in
@@ -124,28 +166,46 @@ Definition sd_align (w : N) (d : sigdef) : sd_result sigdef :=
   if sdf1 =? 0 then SdFault SdDivZero else
   let epd0 := spd1 / sdf1 in
   sd_bind (sd_fit_loop (N.to_nat epd0) eps1 epd0) (fun epd1 =>
-  SdOk (mkSigDef (u32 (sdf1 * epd1)) sdf1 eps1 sumdf1 (anno d1) (utc d1)))))).
+  let spd2 := u32 (sdf1 * epd1) in
+  if sd_block_too_big w spd2 then SdErr JLS_ERROR_PARAMETER_INVALID else
+  if sd_summary_too_big eps1 then SdErr JLS_ERROR_PARAMETER_INVALID else
+  SdOk (mkSigDef spd2 sdf1 eps1 sumdf1 (sd_anno d1) (sd_utc d1)))))).
+
+(* the code before the fixes *)
+Definition sd_align_old (w : N) (d : sd_sigdef) : sd_result sd_sigdef :=
+  let d1 := sd_defaults_old w d in
+  if w =? 0 then SdFault SdDivZero else
+  let m := sd_multiple_old w in
+  sd_bind (sd_round_up_old (N.max (sdf d1) SAMPLE_DECIMATE_FACTOR_MIN) m) (fun sdf1 =>
+  let spd0 := N.max (spd d1) SAMPLES_PER_DATA_MIN in
+  let eps0 := N.max (eps d1) ENTRIES_PER_SUMMARY_MIN in
+  let sumdf1 := N.max (sumdf d1) SUMMARY_DECIMATE_FACTOR_MIN in
+  sd_bind (sd_round_up_old eps0 sumdf1) (fun eps1 =>
+  sd_bind (sd_round_up_old spd0 sdf1) (fun spd1 =>
+  if sdf1 =? 0 then SdFault SdDivZero else
+  let epd0 := spd1 / sdf1 in
+  sd_bind (sd_fit_loop (N.to_nat epd0) eps1 epd0) (fun epd1 =>
+  SdOk (mkSigDef (u32 (sdf1 * epd1)) sdf1 eps1 sumdf1 (sd_anno d1) (sd_utc d1)))))).
 
 (* ---- the property's relations on the stored parameters ---- *)
-Definition Consistent (w : N) (d : sigdef) : Prop :=
+Definition Consistent (w : N) (d : sd_sigdef) : Prop :=
   (sdf d * w) mod 8 = 0 /\                                             (* level-1 entry = whole bytes *)
-  ((SAMPLE_SIZE_BYTES_MAX * 8) mod w = 0 ->
-     (sdf d * w) mod (SAMPLE_SIZE_BYTES_MAX * 8) = 0) /\                (* ... and a multiple of 256 bits *)
+  (sdf d * w) mod (SAMPLE_SIZE_BYTES_MAX * 8) = 0 /\                  (* ... and a multiple of 256 bits, every width *)
   (sdf d <> 0 /\ spd d mod sdf d = 0) /\                               (* block = whole entries *)
   (spd d / sdf d <> 0 /\ eps d mod (spd d / sdf d) = 0) /\             (* summary chunk = whole blocks *)
   (sumdf d <> 0 /\ eps d mod sumdf d = 0) /\                           (* ... and whole next-level groups *)
   SAMPLES_PER_DATA_MIN <= spd d /\ SAMPLE_DECIMATE_FACTOR_MIN <= sdf d /\
   ENTRIES_PER_SUMMARY_MIN <= eps d /\ SUMMARY_DECIMATE_FACTOR_MIN <= sumdf d /\
-  1 <= anno d /\ 1 <= utc d.
+  SUMMARY_DECIMATE_FACTOR_MIN <= sd_anno d /\ SUMMARY_DECIMATE_FACTOR_MIN <= sd_utc d.   (* index chunks hold several entries *)
 
-(* the literal "multiple of 256 bits" clause for every width, 24 included *)
-Definition Entry256 (w : N) (d : sigdef) : Prop :=
+(* the "multiple of 256 bits" clause alone (second clause of Consistent) *)
+Definition Entry256 (w : N) (d : sd_sigdef) : Prop :=
   (sdf d * w) mod (SAMPLE_SIZE_BYTES_MAX * 8) = 0.
 
 (* executable versions (extracted; evaluated on the implementation's output) *)
-Definition consistent_clauses (w : N) (d : sigdef) : list bool :=
+Definition consistent_clauses (w : N) (d : sd_sigdef) : list bool :=
   [ (sdf d * w) mod 8 =? 0;
-    negb ((SAMPLE_SIZE_BYTES_MAX * 8) mod w =? 0) || ((sdf d * w) mod (SAMPLE_SIZE_BYTES_MAX * 8) =? 0);
+    (sdf d * w) mod (SAMPLE_SIZE_BYTES_MAX * 8) =? 0;
     negb (sdf d =? 0) && (spd d mod sdf d =? 0);
     negb (spd d / sdf d =? 0) && (eps d mod (spd d / sdf d) =? 0);
     negb (sumdf d =? 0) && (eps d mod sumdf d =? 0);
@@ -153,34 +213,10 @@ Definition consistent_clauses (w : N) (d : sigdef) : list bool :=
     SAMPLE_DECIMATE_FACTOR_MIN <=? sdf d;
     ENTRIES_PER_SUMMARY_MIN <=? eps d;
     SUMMARY_DECIMATE_FACTOR_MIN <=? sumdf d;
-    1 <=? anno d;
-    1 <=? utc d ].
-Definition consistentb (w : N) (d : sigdef) : bool := forallb (fun b => b) (consistent_clauses w d).
-Definition entry256b (w : N) (d : sigdef) : bool := (sdf d * w) mod (SAMPLE_SIZE_BYTES_MAX * 8) =? 0.
-
-(* ---- the guard: exactly the inputs on which the C neither faults nor stores
-   inconsistent parameters (proved in both directions in SigDefProofs.v) ---- *)
-Definition sd_sdf0 (w : N) (d : sigdef) : N := N.max (sdf (sd_defaults w d)) SAMPLE_DECIMATE_FACTOR_MIN.
-Definition sd_sdf1 (w : N) (d : sigdef) : N :=             (* the rounded factor when nothing wraps *)
-  (sd_sdf0 w d + sd_multiple w - 1) / sd_multiple w * sd_multiple w.
-Definition sd_spd0 (w : N) (d : sigdef) : N := N.max (spd (sd_defaults w d)) SAMPLES_PER_DATA_MIN.
-Definition sd_eps0 (w : N) (d : sigdef) : N := N.max (eps (sd_defaults w d)) ENTRIES_PER_SUMMARY_MIN.
-Definition sd_sumdf1 (w : N) (d : sigdef) : N := N.max (sumdf (sd_defaults w d)) SUMMARY_DECIMATE_FACTOR_MIN.
-
-Definition guard_sdf (w : N) (d : sigdef) : Prop := sd_sdf0 w d + sd_multiple w - 1 < U32.
-Definition guard_spd (w : N) (d : sigdef) : Prop := sd_spd0 w d + sd_sdf1 w d - 1 < U32.
-Definition guard_eps (w : N) (d : sigdef) : Prop := sd_eps0 w d + sd_sumdf1 w d - 1 < U32.
-Definition guard_ts (w : N) (d : sigdef) : Prop :=
-  anno (sd_defaults w d) <> 0 /\ utc (sd_defaults w d) <> 0.
-Definition sd_guard (w : N) (d : sigdef) : Prop :=
-  guard_sdf w d /\ guard_spd w d /\ guard_eps w d /\ guard_ts w d.
-
-Definition guard_bits (w : N) (d : sigdef) : list bool :=
-  [ sd_sdf0 w d + sd_multiple w - 1 <? U32;
-    sd_spd0 w d + sd_sdf1 w d - 1 <? U32;
-    sd_eps0 w d + sd_sumdf1 w d - 1 <? U32;
-    negb (anno (sd_defaults w d) =? 0) && negb (utc (sd_defaults w d) =? 0) ].
-Definition sd_guardb (w : N) (d : sigdef) : bool := forallb (fun b => b) (guard_bits w d).
+    SUMMARY_DECIMATE_FACTOR_MIN <=? sd_anno d;
+    SUMMARY_DECIMATE_FACTOR_MIN <=? sd_utc d ].
+Definition consistentb (w : N) (d : sd_sigdef) : bool := forallb (fun b => b) (consistent_clauses w d).
+Definition entry256b (w : N) (d : sd_sigdef) : bool := (sdf d * w) mod (SAMPLE_SIZE_BYTES_MAX * 8) =? 0.
 
 (* ---- fast, proved-equal evaluation of the loop (the C loop runs up to 3.6e8 times) ----
    largest k <= epd with k | e: immediate cases, then 256 steps of the real loop, then a
@@ -202,7 +238,7 @@ Definition sd_fit_fast (e epd : N) : N :=
   else if e <=? epd then e
   else match sd_fit_loop 256 e epd with
        | SdOk k => k
-       | SdFault _ => sd_fit_scan (N.to_nat 65537) e epd 1 0
+       | _ => sd_fit_scan (N.to_nat 65537) e epd 1 0
        end.
 
 Definition sd_fit (e epd : N) : sd_result N :=
@@ -210,7 +246,7 @@ Definition sd_fit (e epd : N) : sd_result N :=
 
 (* sd_align with the loop replaced by sd_fit; also returns the loop's start value
    (entries_per_data before the loop) so that callers can tell how long the C loop runs *)
-Definition sd_align_fast_info (w : N) (d : sigdef) : sd_result (sigdef * N) :=
+Definition sd_align_fast_info (w : N) (d : sd_sigdef) : sd_result (sd_sigdef * N) :=
   let d1 := sd_defaults w d in
   if w =? 0 then SdFault SdDivZero else
   let m := sd_multiple w in
@@ -223,31 +259,35 @@ Definition sd_align_fast_info (w : N) (d : sigdef) : sd_result (sigdef * N) :=
   if sdf1 =? 0 then SdFault SdDivZero else
   let epd0 := spd1 / sdf1 in
   sd_bind (sd_fit eps1 epd0) (fun epd1 =>
-  SdOk (mkSigDef (u32 (sdf1 * epd1)) sdf1 eps1 sumdf1 (anno d1) (utc d1), epd0))))).
+  let spd2 := u32 (sdf1 * epd1) in
+  if sd_block_too_big w spd2 then SdErr JLS_ERROR_PARAMETER_INVALID else
+  if sd_summary_too_big eps1 then SdErr JLS_ERROR_PARAMETER_INVALID else
+  SdOk (mkSigDef spd2 sdf1 eps1 sumdf1 (sd_anno d1) (sd_utc d1), epd0))))).
 
-Definition sd_align_fast (w : N) (d : sigdef) : sd_result sigdef :=
-  match sd_align_fast_info w d with SdOk (d', _) => SdOk d' | SdFault f => SdFault f end.
+Definition sd_align_fast (w : N) (d : sd_sigdef) : sd_result sd_sigdef :=
+  match sd_align_fast_info w d with SdOk (d', _) => SdOk d' | SdErr rc => SdErr rc | SdFault f => SdFault f end.
 
 (* what jls_wr_signal_def does with a definition: validate, then align.
-   inl rc = rejected with error code rc. *)
-Definition sd_define (signal_id source_id signal_type data_type : N) (d : sigdef)
-  : N + sd_result (sigdef * N) :=
+   inl rc = rejected by validation with error code rc.  When align itself rejects
+   (SdErr), the struct holds the definition after defaults: sd_defaults. *)
+Definition sd_define (signal_id source_id signal_type data_type : N) (d : sd_sigdef)
+  : N + sd_result (sd_sigdef * N) :=
   let rc := sd_validate signal_id source_id signal_type data_type in
   if rc =? 0 then inr (sd_align_fast_info (sample_size data_type) d) else inl rc.
 
 (* the loop's arguments (entries_per_summary after rounding, entries_per_data before the
-   loop), (0, 0) when the C faults before the loop.  Used only by the test generator to
+   loop), (0, 0) when the C returns before the loop.  Used only by the test generator to
    budget long-running cases (the C loop runs entries_per_data - result times); nothing is
    proved about it and no verdict depends on it. *)
-Definition sd_loop_args (w : N) (d : sigdef) : N * N :=
+Definition sd_loop_args (w : N) (d : sd_sigdef) : N * N :=
   let d1 := sd_defaults w d in
   if w =? 0 then (0, 0) else
   match sd_round_up (N.max (sdf d1) SAMPLE_DECIMATE_FACTOR_MIN) (sd_multiple w) with
-  | SdFault _ => (0, 0)
   | SdOk sdf1 =>
     match sd_round_up (N.max (eps d1) ENTRIES_PER_SUMMARY_MIN) (N.max (sumdf d1) SUMMARY_DECIMATE_FACTOR_MIN),
           sd_round_up (N.max (spd d1) SAMPLES_PER_DATA_MIN) sdf1 with
     | SdOk eps1, SdOk spd1 => if sdf1 =? 0 then (0, 0) else (eps1, spd1 / sdf1)
     | _, _ => (0, 0)
     end
+  | _ => (0, 0)
   end.
